@@ -2,6 +2,7 @@
 // any other function the sanitizers intercept.
 #include "simsched.h"
 #include <pthread.h>
+#include <errno.h>
 #include <unistd.h>
 #include <sys/syscall.h>
 #include <linux/futex.h>
@@ -466,6 +467,28 @@ extern "C" void __wrap___cxa_guard_abort(void *g)
   __real___cxa_guard_abort(g);
 }
 #endif
+
+// A mutex of the code under test (the pinned tree has none, a change may bring one): a task that was switched out
+// inside a critical section keeps the mutex while it is parked, and a task that then blocked in the real
+// pthread_mutex_lock would stop the whole simulation. The linker routes the lock calls of the code under test
+// here: try, and while the mutex is taken let the scheduler run somebody else.
+extern "C" int __real_pthread_mutex_lock(pthread_mutex_t *);
+extern "C" int __wrap_pthread_mutex_lock(pthread_mutex_t *m)
+{
+  if (!sim::active)
+    return __real_pthread_mutex_lock(m);
+  for (unsigned spins = 0;; ++spins)
+    {
+      const int r = pthread_mutex_trylock(m);
+      if (r != EBUSY)
+        return r;
+      if (sim::unfinished_others() == 0 || spins > 1000000)
+        return __real_pthread_mutex_lock(m); // nobody left who could release it: let it block for real (a deadlock of the code under test)
+      const int next = sim::decide(sim::SITE_LOCK, true);
+      if (next >= 0)
+        sim::switch_to(next);
+    }
+}
 
 // the two symbols the library hooks (include/world_builder/verif_hooks.h) call
 extern "C" void gwb_verif_point(int site)
